@@ -23,6 +23,9 @@ def fresh_fn(tag, sig=None):
   exec(f'def {tag}({sig}):\n  return ("{tag}", {", ".join(s.split("=")[0].strip() for s in sig.split(","))})\n', ns)
   fn = ns[tag]
   fn.__module__ = 'harness.props.C19'
+  fn.__qualname__ = tag
+  import sys as _sys
+  setattr(_sys.modules['harness.props.C19'], tag, fn)      # importable: serializable by reference
   return fn
 
 
@@ -31,7 +34,9 @@ SHARED = {}
 
 def shared_callable(i):
   """A callable looked up for the first time by several threads at once."""
-  return SHARED.setdefault(i, fresh_fn(f'shared_{i}', 'x=0, y=1'))
+  if i not in SHARED:           # (racing first lookups may both create one; the last registered wins)
+    SHARED[i] = fresh_fn(f'shared_{i}', 'x=0, y=1')
+  return SHARED[i]
 
 
 def prog_build(tid, seed):
@@ -81,13 +86,19 @@ def prog_edit(tid, seed):
 
 def prog_copy_dump(tid, seed):
   def run():
-    f = shared_callable(seed % 3)
+    # one thread's callable is another thread's argument VALUE, at a place that depends on the thread
+    f = shared_callable((seed + tid) % 3)
+    g = shared_callable((seed + tid + 1) % 3)
     cfg = fdl.Config(f, x=[tid, {'k': tid}], y=fdl.Config(f, x=tid))
+    if tid % 2:
+      cfg.y.y = {'fn': g}
+    else:
+      cfg.x.append(g)
     c2 = copy.deepcopy(cfg)
     doc = serialization.dump_json(cfg)
     back = serialization.load_json(doc)
     eq = (c2 == cfg, back == cfg)
-    return ['copy', graphs.canon(c2), eq, len(doc) > 10]
+    return ['copy', graphs.canon(c2), eq, doc]
   return run
 
 
@@ -176,6 +187,13 @@ def cases(tier, r):
     a, b = r.choice(kinds), r.choice(kinds)
     yield 'preempt1', {'progs': [a, b], 'seed': r.getrandbits(24), 'mode': 'single',
                        'stride': 7 if tier == 'quick' else 2}
+  # a failing build pre-empted at EVERY line by another thread's build (the failing callable is
+  # entered, the other thread builds, then the callable raises)
+  for progs in (['fail', 'build'], ['fail', 'fail'], ['build', 'fail']):
+    yield 'fail_preempt', {'progs': progs, 'seed': r.getrandbits(24), 'mode': 'single', 'stride': 1}
+  for i in range(2 if tier == 'quick' else 12):
+    yield 'copies', {'progs': ['copy', 'copy', 'copy'][:2 + i % 2], 'seed': r.getrandbits(24), 'mode': 'random',
+                     'p': 0.02, 'runs': 1 if tier == 'quick' else 4}
   for i in range(40 if tier == 'quick' else 600):
     n = r.choice([2, 2, 3])
     yield 'random', {'progs': [r.choice(kinds) for _ in range(n)], 'seed': r.getrandbits(24), 'mode': 'random',
@@ -191,10 +209,12 @@ def strip_ids(res):
 
 
 def run_alone(kinds, seed):
-  SHARED.clear()
   signatures._signature_cache.clear() if hasattr(signatures._signature_cache, 'clear') else None
   out = []
   for tid, k in enumerate(kinds):
+    # every program on its own: fresh shared callables, so nothing an earlier program left in a
+    # process-wide cache is visible to it
+    SHARED.clear()
     try:
       out.append(strip_ids(PROGS[k](tid, seed)()))
     except Exception as e:
@@ -274,17 +294,30 @@ def execute(case):
       obs['mismatches'].append(['alone', f'program {k} run after other programs of the same process does not '
                                 'observe what it observes in a fresh process', res])
   # calibrate: number of line-level steps of thread 0 when it runs first to completion
-  _, total, _, _ = run_scheduled(kinds, seed, lambda step, cur, alive: cur)
+  seq, total, seq_ids, seq_tl = run_scheduled(kinds, seed, lambda step, cur, alive: cur)
   obs['steps'] = total
+  # the programs one after the other in ONE process (no pre-emption at all): already here nothing
+  # an earlier program left behind may be visible to a later one
+  if seq != alone:
+    diff = [i for i, (a, b) in enumerate(zip(seq, alone)) if a != b]
+    obs['mismatches'].append(['sequential', 'thread results differ from running alone', diff,
+                              [json.dumps(seq[i], default=str)[:300] for i in diff][:2], seq_tl[:4]])
   schedules = []
   if case['mode'] == 'single':
     # pre-empt the first thread after k lines, run the others, then resume (every `stride`-th k)
-    for k in range(1, total, case['stride']):
+    # (at most `cap` evenly spaced pre-emption points per family: a serialization is thousands of lines)
+    cap = 24 if case['stride'] >= 7 else 200
+    ks = list(range(1, total, case['stride']))
+    ks = ks[::max(1, len(ks) // cap)]
+    for k in ks:
       schedules.append(('preempt@%d' % k, sched.switch_each([k])))
-    for k in range(3, total, case['stride'] * 3):
+    ks3 = list(range(3, total, case['stride'] * 3))
+    ks3 = ks3[::max(1, len(ks3) // cap)]
+    for k in ks3:
       schedules.append(('preempt@%d+%d' % (k, k + 40), sched.switch_each([k, k + 40, k + 80])))
   else:
-    for i in range(case['runs']):
+    n_runs = case['runs'] if 'copy' not in kinds else max(1, case['runs'] // 3)
+    for i in range(n_runs):
       rr = random.Random(seed * 1000 + i)
       schedules.append((f'random{i}', sched.random_switch(rr, case['p'])))
   for name, decide in schedules:
